@@ -23,6 +23,18 @@ static void walk (int format, int ch, int rate, int mode, int steps, int noise)
 		if (got < 0 || g < got) got = g ;
 		sf_close (s) ;
 		}
+	/* the four sequential references must agree with each other (the same stored sample through different API types): integer encodings only, within
+	** one unit of the narrower representation (rounding variants of the individual codecs), so only gross disagreement - a wrapped accumulator, a wrong scale - counts */
+	if (!vh_is_fp (sub) && got > 0)
+	{	const short *S = (const short *) ref [T_SHORT] ; const int *I = (const int *) ref [T_INT] ; const float *Fl = (const float *) ref [T_FLOAT] ; const double *D = (const double *) ref [T_DOUBLE] ; long i, nbad = 0 ;
+		for (i = 0 ; i < got * ch && !nbad ; i++)
+		{	double di = (double) I [i], tol = 65536.0 + 512.0 ;
+			if (labs ((long) (I [i] >> 16) - (long) S [i]) > 1) nbad = 1 ;
+			else if (fabs (D [i] * 2147483648.0 - di) > tol || fabs ((double) Fl [i] * 2147483648.0 - di) > tol) nbad = 2 ;
+			if (nbad) vh_viol (vh_key ("C06|types-disagree|%s|%s", fn, nbad == 1 ? "short-vs-int" : "float-or-double-vs-int"), "ch=%d frame %ld: the same stored sample reads as short %d, int %d, float %.9g, double %.17g (normalised)", ch, i / ch, S [i], I [i], Fl [i], D [i]) ;
+			}
+		vh_stat ("cross_type_reference_comparisons", 1) ;
+		}
 	s = vh_open_r (&m, format, ch, rate, &ri) ;
 	F = (long) ri.frames ;
 	vh_stat ("files", 1) ;
